@@ -127,14 +127,14 @@ func NewRun(prop, engine, level string) *Run {
 }
 
 // watchdog bounds every engine run: a check must end with a verdict. If it has not after a generous
-// wall-clock limit (VERIF_WATCHDOG_MIN; default 25 minutes quick, 4 hours thorough) the goroutines are
+// wall-clock limit (VERIF_WATCHDOG_MIN; default 12 minutes quick, 3 hours thorough) the goroutines are
 // dumped, the one parked inside collector code (if any) is named, and the process exits 3 - a harness
 // error, never a verdict on the property. (The code under test runs in-process in several engines; a
 // change that makes a decoder wait for ever must not make the check wait for ever.)
 func (r *Run) watchdog() {
-	lim := 25 * time.Minute
+	lim := 12 * time.Minute
 	if r.Tier == "thorough" {
-		lim = 4 * time.Hour
+		lim = 3 * time.Hour
 	}
 	if v, err := strconv.Atoi(os.Getenv("VERIF_WATCHDOG_MIN")); err == nil && v > 0 {
 		lim = time.Duration(v) * time.Minute
